@@ -282,7 +282,18 @@ Definition g_interf : graph :=
     (* 21 *) cached [16; 12];                             (* regularization_term *)
     (* 22 *) cached [14];                                 (* log_det_curvature_reg_matrix_term *)
     (* 23 *) cached [12];                                 (* log_det_regularization_matrix_term *)
-    (* 24 *) plain [0; 1]                                 (* dataset.signal_to_noise_map *)
+    (* 24 *) plain [0; 1];                                (* dataset.signal_to_noise_map *)
+    (* the Interferometer dataset itself (dataset/interferometer/dataset.py, structures/visibilities.py) *)
+    (* 25 *) cached [0];                                  (* dataset.data.amplitudes (cached on the Visibilities object) *)
+    (* 26 *) mkG GPlain [25] (MAlias 0) [];               (* dataset.amplitudes: `return self.data.amplitudes` *)
+    (* 27 *) plain [2; 0];                                (* dataset.dirty_image *)
+    (* 28 *) plain [2; 1];                                (* dataset.dirty_noise_map *)
+    (* 29 *) plain [2];                                   (* dataset.uv_distances *)
+    (* 30 *) plain [1; 2; 0];                             (* dataset.w_tilde: needs an optional module that is absent here and raises ImportError;
+                                                             a cached_property that raises stores nothing *)
+    (* 31 *) cached [0; 1; 2; 3];                         (* ds2 = dataset.apply_over_sampling(osd): keeps the source's arrays *)
+    (* 32 *) cached [31];                                 (* ds2.grids *)
+    (* 33 *) mkG GPlain [31; 25] (MAlias 1) []            (* ds2.amplitudes: the source's Visibilities object, hence its cached array *)
   ].
 
 Definition ginstance (k : nat) : graph :=
